@@ -4,10 +4,14 @@ GFF3 annotation graphs for C02 (generator (a) of DESIGN section 3).
 graph = {"nodes": [node...], "edge": "raw"|"pct"}       nodes are listed parents-first (layer by layer)
 node  = {"id", "type", "seqid", "start", "end", "strand", "layer",
          "parents": [ids; may name no node = dangling], "style": "comma"|"repeat", "idpos": "first"|"last",
-         "name": str|None}
+         "name": str|None,
+         optional "noid": True (the line has no ID attribute; "id" is "" - the stored id depends on the line order, see
+         gvmon/models/hierarchy.resolve_ids), optional "extra": [raw 'key=value' attribute texts written after Name]}
 DAG of depth <= 4, 0-3 Parent values per node, shared children, shortcuts (a->b->c plus a->c), dangling values.
+Further workload classes are made from such a graph by make_hostile / make_idless / make_mixed / make_confusable.
 """
 import itertools
+import re
 
 from gvmon.models import dialect as M
 
@@ -137,7 +141,7 @@ def encode_id(v, edge):
 
 
 def line_of(node, edge="raw"):
-    ident = "ID=" + encode_id(node["id"], edge)
+    ident = [] if node.get("noid") else ["ID=" + encode_id(node["id"], edge)]
     parts = []
     ps = [encode_id(p, edge) for p in node["parents"]]
     if ps:
@@ -147,7 +151,8 @@ def line_of(node, edge="raw"):
             parts.append("Parent=" + ",".join(ps))
     if node.get("name"):
         parts.append("Name=" + M.encode_value(node["name"]))
-    parts = [ident] + parts if node["idpos"] == "first" else parts + [ident]
+    parts += node.get("extra") or []
+    parts = ident + parts if node["idpos"] == "first" else parts + ident
     cols = [node["seqid"], "src", node["type"], str(node["start"]), str(node["end"]), ".", node["strand"], ".",
             ";".join(parts)]
     return "\t".join(cols)
@@ -178,6 +183,148 @@ def all_orders(n):
 
 def canonical(g):
     return sorted((n["id"], n["type"], sorted(n["parents"])) for n in g["nodes"])
+
+
+def spelling(g):
+    """How the attribute columns are written (part of the distinct-case key of the mixed-spelling class)."""
+    return [[n["style"], list(n.get("extra") or [])] for n in g["nodes"]]
+
+
+# -- further workload classes made from a graph() ------------------------------------------------------------
+AUTO_ID = re.compile(r"^(.*)_[0-9]+$")
+
+
+def make_idless(rng, g, max_lines=15):
+    """Take the ID attribute away from 1..n lines that nobody names as Parent (they keep their Parent values), and write
+    some of them several times BYTE-IDENTICALLY (as after concatenating two files) or once more with other coordinates
+    (same featuretype: the same counter).  Returns the list of variants made, or None when the graph has no such line
+    or an ID / Parent value already looks like an auto-generated id '<featuretype>_<n>'."""
+    nodes = g["nodes"]
+    types = {n["type"] for n in nodes}
+    for v in {n["id"] for n in nodes} | {p for n in nodes for p in n["parents"]}:
+        m = AUTO_ID.match(v)
+        if m and m.group(1) in types:
+            return None
+    named = {p for n in nodes for p in n["parents"]}
+    cand = [n for n in nodes if n["parents"] and n["id"] not in named]
+    if not cand:
+        return None
+    rng.shuffle(cand)
+    picked = cand[:rng.choice([1, 1, 2, 2, 3, len(cand)])]
+    made = []
+    for n in picked:
+        n.update(noid=True, id="", idpos="first")
+    for n in picked:
+        r = rng.random()
+        if r < 0.7:
+            for _ in range(rng.choice([1, 1, 1, 2, 3])):
+                if len(nodes) < max_lines:
+                    nodes.append(dict(n, parents=list(n["parents"])))
+                    made.append("byte-identical twin")
+        elif r < 0.9 and len(nodes) < max_lines:
+            nodes.append(dict(n, parents=list(n["parents"]), start=n["start"] + 1, end=n["end"] + 1 + rng.randrange(3)))
+            made.append("same featuretype, other coordinates")
+    return made or ["single"]
+
+
+def _second_parent(rng, g):
+    """Make sure some line has >= 2 Parent values (adds values naming lines of earlier layers); returns those lines."""
+    nodes = g["nodes"]
+    multi = [n for n in nodes if len(n["parents"]) >= 2]
+    if multi:
+        return multi
+    cands = [n for n in nodes if n["layer"] >= 1]
+    rng.shuffle(cands)
+    for n in cands:
+        earlier = [m["id"] for m in nodes if m["layer"] < n["layer"] and m["id"] not in n["parents"]]
+        rng.shuffle(earlier)
+        while len(n["parents"]) < 2 and earlier:
+            n["parents"].append(earlier.pop())
+        if len(n["parents"]) >= 2:
+            return [n]
+    return []
+
+
+DBX = ["EMBL:AA816246", "NCBI_gi:10727410", "GB:X1", "FB:FBgn0031208", "taxon:7227"]
+
+
+def make_mixed(rng, g, majority):
+    """Both ways of writing several values in ONE file.
+
+    majority "repeat": every line writes its Parent values (and, mostly, two Dbxref values) as repeated keys
+    (Parent=a;Parent=b) so that a dialect inferred from the file says 'repeated keys', while 1-2 lines with >= 2 parents
+    write them as one comma list (Parent=a,b).  majority "comma": the reverse.  The Parent graph does not change.
+    Returns the number of minority lines (0: no line with two parents could be made)."""
+    nodes = g["nodes"]
+    multi = _second_parent(rng, g)
+    if not multi:
+        return 0
+    minority = rng.sample(multi, min(len(multi), rng.choice([1, 1, 2])))
+    for n in nodes:
+        a, b = rng.sample(DBX, 2)
+        if majority == "repeat":
+            n["style"] = "repeat"
+            n["extra"] = ["Dbxref=" + a, "Dbxref=" + b] if rng.random() < 0.85 else []
+        else:
+            n["style"] = "comma"
+            n["extra"] = ["Dbxref=%s,%s" % (a, b)] if rng.random() < 0.6 else []
+    for n in minority:
+        a, b = rng.sample(DBX, 2)
+        if majority == "repeat":
+            n["style"] = "comma"
+            # the last form: a comma list for Parent and repeated keys for another attribute in the same line
+            n["extra"] = rng.choice([[], ["Dbxref=%s,%s" % (a, b)], ["Dbxref=" + a, "Dbxref=" + b]])
+        else:
+            n["style"] = "repeat"
+            n["extra"] = rng.choice([[], ["Dbxref=%s,%s" % (a, b)]])
+    return len(minority)
+
+
+WILD = ["%", "_", "a", "%%", "__", "ab", "a_", "a%", "_b", "%b", "a_c", "abc", "a%c", "a__", "a%%", "ab_", "_%"]
+NUMERIC = ["1", "01", "1.0", "001", "1e0", "10", "1.00", "0x1", "1.", "0", "00", "0.0", "1E0", "100", "1e2"]
+
+
+def confusable_family(rng):
+    """(family name, >= 4 distinct ids that a sloppy comparison takes for one another)."""
+    r = rng.randrange(3)
+    if r == 0:
+        base = "".join(rng.choice(WORD[:26]) for _ in range(rng.randrange(2, 6))) + rng.choice(["", "", "1", "_x"])
+        vs = {base, base.upper(), base.capitalize(), base[:-1] + base[-1].upper(), base[0] + base[1:].upper()}
+        while len(vs) < 4:
+            vs.add("".join(c.upper() if rng.random() < 0.5 else c for c in base))
+        return "letter case", sorted(vs)
+    if r == 1:
+        return "numeric-looking", list(NUMERIC)
+    return "SQL wildcard", list(WILD)
+
+
+def make_confusable(rng, g):
+    """Rename 2-5 ids / dangling Parent values (consistently) to members of ONE family of look-alike ids: ids that differ
+    only in letter case, numeric-looking ids ('1', '01', '1.0'), ids made of SQL wildcard characters ('%', '_').
+    Returns (family name, number of renamed ids) or None."""
+    nodes = g["nodes"]
+    ids = [n["id"] for n in nodes]
+    dangling = sorted({p for n in nodes for p in n["parents"]} - set(ids))
+    pool = ids + dangling
+    if len(pool) < 2:
+        return None
+    name, fam = confusable_family(rng)
+    # relatives of one another first: a parent and its child, two children of one parent - where a sloppy match hurts
+    k = min(len(pool), len(fam), rng.choice([2, 3, 3, 4, 5]))
+    start = rng.choice([n for n in nodes if n["parents"]] or nodes)
+    near = [start["id"]] + list(start["parents"]) + [n["id"] for n in nodes if set(n["parents"]) & set(start["parents"])]
+    picks = []
+    for v in near + rng.sample(pool, len(pool)):
+        if v not in picks and len(picks) < k:
+            picks.append(v)
+    new = rng.sample(fam, k)
+    if set(new) & (set(pool) - set(picks)):
+        return None
+    mapping = dict(zip(picks, new))
+    for n in nodes:
+        n["id"] = mapping.get(n["id"], n["id"])
+        n["parents"] = [mapping.get(p, p) for p in n["parents"]]
+    return name, k
 
 
 # -- "wide" graphs: one feature with more than 1000 direct children -------------------------------------------
